@@ -27,6 +27,8 @@ ASSUMPTIONS = [
 ]
 SIDES = ["bottom", "top", "left", "right", "front", "back"]
 GEOM = {"geo": ["type triSurfaceMesh", "name geo", 'file "geo.stl"']}
+# a second declaration under the same name: the later one is the user's last word
+GEOM2 = {"geo": ["type searchableSphere", "centre (0 0 0)", "radius 2"]}
 
 
 def decorations():
@@ -50,6 +52,7 @@ def decorations():
             D.append(("project_corner", op, c))
         D.append(("delete", op))  # (only used with the box bases, where every operation is chopped on its own)
     D.append(("geometry",))
+    D.append(("geometry2",))
     D.append(("merge", "p", "q"))
     D.append(("merge", "q", "p"))
     D.append(("default", "walls", "wall"))
@@ -87,6 +90,8 @@ def touches(a, b):
     if a[0] == "modify" and b[0] == "modify" and a[1] == b[1]:
         return True
     if a[0] == "merge" and b[0] == "merge":
+        return True
+    if a[0].startswith("geometry") and b[0].startswith("geometry"):
         return True
     if a[0] == "setting" and b[0] == "setting" and a[1] == b[1]:
         return True
@@ -131,7 +136,12 @@ def cases(tier, seed):
         for i, j, k in itertools.combinations(thin, 3):
             out.append({"base": "boxes", "prog": [i, j, k]})
             out.append({"base": "box_loft", "prog": [k, j, i]})
-    return [c for c in out if ok(c["base"], c["prog"])]
+    out = [c for c in out if ok(c["base"], c["prog"])]
+    # the built-in geometry of a sphere shape follows the shape: write, move the shape, clear(), write again
+    for k in range(len(MOVES)):
+        for redo in ("clear", "fresh_mesh"):
+            out.append({"base": "hemi_box", "prog": [], "moved": k, "redo": redo})
+    return out
 
 
 # ----------------------------------------------------------------------------
@@ -261,6 +271,9 @@ def run_program(case):
         elif kind == "geometry":
             mesh.add_geometry(dict(GEOM))
             decl.geometry.update(GEOM)
+        elif kind == "geometry2":
+            mesh.add_geometry(dict(GEOM2))
+            decl.geometry.update(GEOM2)
         elif kind == "merge":
             mesh.merge_patches(st[1], st[2])
             decl.merges.append((st[1], st[2]))
@@ -279,7 +292,80 @@ def run_program(case):
     return mesh, ops, decl, open(path).read(), open(path + ".vtk").read()
 
 
+MOVES = [("translate", [0.5, 0.2, -0.3]), ("rotate", 0.7, [0, 0, 1], [0, 0, 0]), ("scale", 1.5, [0, 0, 0]), ("translate+scale", [0.5, 0.2, -0.3], 0.5)]
+
+
+def _move(h, k):
+    mv = MOVES[k]
+    if mv[0] == "translate":
+        h.translate(mv[1])
+    elif mv[0] == "rotate":
+        h.rotate(mv[1], mv[2], mv[3])
+    elif mv[0] == "scale":
+        h.scale(mv[1], mv[2])
+    else:
+        h.translate(mv[1])
+        h.scale(mv[2], [0, 0, 0])
+
+
+def _auto_geometry(d):
+    """the built-in (sphere) geometry entries as sorted lists of numbers, names dropped"""
+    import re
+
+    out = []
+    for name, props in d["geometry"].items():
+        if name.startswith("sphere_"):
+            out.append([float(x) for p in props for x in re.findall(r"-?\d+\.?\d*(?:[eE][-+]?\d+)?", p.split(" ", 1)[1] if " " in p else "")])
+    return sorted(out)
+
+
+def run_moved(case):
+    import classy_blocks as cb
+
+    violations = []
+    coords = dict(case)
+    coords["move"] = str(MOVES[case["moved"]])
+    path = os.path.join(runner.scratch_dir(), f"c06_{os.getpid()}")
+    try:
+        ents, _ = build_base("hemi_box")
+        mesh = cb.Mesh()
+        for e in ents:
+            mesh.add(e)
+        mesh.write(path)
+        _move(ents[0], case["moved"])
+        if case["redo"] == "clear":
+            mesh.clear()
+        else:
+            # the same (moved) shape object given to a new mesh
+            mesh = cb.Mesh()
+            for e in ents:
+                mesh.add(e)
+        mesh.write(path)
+        d2 = foamdict.parse(open(path).read())
+        ents3, _ = build_base("hemi_box")
+        _move(ents3[0], case["moved"])
+        mesh3 = cb.Mesh()
+        for e in ents3:
+            mesh3.add(e)
+        mesh3.write(path)
+        d3 = foamdict.parse(open(path).read())
+    except Exception as err:
+        violations.append({"clause": "program-raised", "coords": coords, "detail": f"{type(err).__name__}: {str(err)[:200]}"})
+        return {"violations": violations, "outcome": "raised", "nontrivial": True}
+    g2, g3 = _auto_geometry(d2), _auto_geometry(d3)
+    same = len(g2) == len(g3) and all(len(a) == len(b) and all(abs(x - y) <= 1e-9 * (1 + abs(y)) for x, y in zip(a, b)) for a, b in zip(g2, g3))
+    if not same or not g3:
+        violations.append({"clause": "built-in-geometry-not-moved-with-the-shape", "coords": coords, "detail": f"written after the shape was moved: {g2}; the same shape moved before its first write: {g3}"})
+    v2 = [v["pos"] for v in d2["vertices"]]
+    v3 = [v["pos"] for v in d3["vertices"]]
+    if len(v2) != len(v3) or any(np.linalg.norm(np.array(a) - np.array(b)) > 1e-9 for a, b in zip(v2, v3)):
+        violations.append({"clause": "vertices-not-moved-with-the-shape", "coords": coords, "detail": "vertex lists differ"})
+    return {"violations": violations, "outcome": f"moved:{len(g3)}", "nontrivial": True, "execs": 3, "states": 3, "transitions": 3}
+
+
 def run_case(case):
+    if "moved" in case:
+        return run_moved(case)
     violations = []
     coords = dict(case)
     D = decorations()
